@@ -405,11 +405,13 @@ func ruleWrapperRecvKeepsPayload(c *chk.Ctx) {
 		}
 		n++
 		bad := ""
-		for _, r := range ir.Returns(f) {
-			if !ir.InstrDominates(inner, r) || len(r.Results) != 2 {
+		// (the results may pass through a private filter function: its parameter is the record)
+		for _, r := range effectiveReturns(c, f, 0) {
+			if len(r.Results) != 2 || (r.Parent() == f && !ir.InstrDominates(inner, r)) {
 				continue
 			}
-			if !ir.IsExtractOf(ir.NormCell(ir.ReturnResult(r, 0)), inner, 0) {
+			v := ir.ReturnResult(r, 0)
+			if !ir.IsExtractOf(ir.NormCell(v), inner, 0) && !ir.IsExtractOf(c.P.Canon(v), inner, 0) {
 				bad = c.P.Pos(r.Pos())
 			}
 		}
@@ -716,7 +718,7 @@ func ruleSlotWaitErrorReturnedAsIs(c *chk.Ctx, d *dispatchModel) {
 		if r.at.Parent() != f || !ir.InstrDominates(acq, r.at) {
 			continue
 		}
-		if !ir.ProvesNonNil(r.conds, sameErr) {
+		if !ir.ProvesNonNil(r.conds, func(x ssa.Value) bool { return r.as(x, sameErr) }) {
 			continue
 		}
 		n++
